@@ -38,7 +38,8 @@ def main():
     if '--extra' in sys.argv:
         extra = sys.argv[sys.argv.index('--extra') + 1].split(',')
     src = '/tmp/seed/%s.out%s' % (prop, '' if letter in 'AB' else (
-        '2' if letter in 'CD' else ('4' if letter in 'EF' else '5')))
+        '2' if letter in 'CD' else ('4' if letter in 'EF' else (
+            '5' if letter in 'GH' else '7'))))
     patch = os.path.join(src, 'patch_%s.diff' % letter)
     demo = os.path.join(src, 'demo_%s.py' % letter)
     meta_in = {}
@@ -89,7 +90,7 @@ def main():
                 rp = [l.split('replay=')[1].strip() for l in out.splitlines()
                       if l.startswith('VIOLATION') and 'replay=' in l]
                 if rp and os.path.exists(rp[0]):
-                    keep = rp[0] + '.keep'
+                    keep = os.path.join(d, 'replay.json')
                     shutil.copy(rp[0], keep)
                     r1, o1 = sh([os.path.join(HERE, 'check'), p, '--replay',
                                  keep], env=dict(os.environ, VERIF_REPO=wt),
@@ -126,6 +127,9 @@ def main():
         demo_unchanged=res.get('demo_unchanged', {}).get('exit'),
         demo_changed=res.get('demo_changed', {}).get('exit'),
         tests=res.get('tests_with_change', {}).get('stable_pass_intact'),
+        tests_tail=res.get('tests_with_change', {}).get('tail', '')[-300:]
+        if not res.get('tests_with_change', {}).get('stable_pass_intact')
+        else '',
         detected={p: c['detected'] for p, c in res.get('checks', {}).items()},
         replay={p: c.get('replay', {}).get('ok') for p, c in
                 res.get('checks', {}).items()},
